@@ -665,7 +665,16 @@ class EngineWorld:
             for act in script:
                 op = act[0]
                 if op == "work":
-                    await self.work()
+                    if s.get("slow_cancel"):
+                        # a body that cleans up when it is cancelled, and whose cleanup takes a while
+                        try:
+                            await self.work()
+                        except asyncio.CancelledError:
+                            self.probe("cancelled-body-with-slow-cleanup")
+                            await asyncio.sleep(s["slow_cancel"])
+                            raise
+                    else:
+                        await self.work()
                 elif op == "sleep":
                     await asyncio.sleep(act[1])
                 elif op == "stall":
